@@ -42,9 +42,6 @@ theorem reset_forgets (s t : Screen) (hs : 1 ≤ s.lines) (ht : 1 ≤ t.lines)
     reset s = reset t := by
   rw [reset_eq s hs, reset_eq t ht, hc, hl, hsp]
 
-/-- the documented defaults -/
-theorem default_modes : DEFAULT_MODE = [DECAWM, DECTCEM] := by decide
-
 theorem C15_holds (env : Env) (cands : List Nat) (s : Screen) (c : Call) (h : Inv s) :
     propC15 cands s c (step env s c) = true := by
   cases c <;> try rfl
